@@ -44,6 +44,9 @@ func replayVariant(file, out, tmp string) error {
 	sink := appdrv.NewSink(f)
 	rootA, _ := os.MkdirTemp(tmp, "repA-")
 	defer os.RemoveAll(rootA)
+	if appdrv.RefreshClockProbes(vf.Base) > 0 {
+		appdrv.RefreshClockProbes(vf.Variant)
+	}
 	startA := time.Now()
 	a, _, err := appdrv.RunOutputs(vf.Base, "A", rootA, true)
 	if err != nil {
@@ -149,6 +152,13 @@ func init() {
 			rootA, _ := os.MkdirTemp(*tmp, "repA-")
 			switch *mode {
 			case "det":
+				if appdrv.RefreshClockProbes(sc) > 0 {
+					// replica B reads the scenario from a file: the re-signed one
+					file = filepath.Join(rootA, "refreshed-"+filepath.Base(file))
+					if err := appdrv.SaveScenario(sc, file); err != nil {
+						return err
+					}
+				}
 				startA := time.Now()
 				a, _, err := appdrv.RunOutputs(sc, "A", rootA, true)
 				if err != nil {
